@@ -35,6 +35,9 @@ pub fn case_json(start_fen: &str, moves: &[String], depth: u32) -> Value {
     json!({"start_fen": start_fen, "moves": moves, "depth": depth})
 }
 
+/// rule-sensitivity classification on/off (off inside the libFuzzer target: speed)
+pub static SENSITIVITY: std::sync::atomic::AtomicBool = std::sync::atomic::AtomicBool::new(true);
+
 pub struct Outcome {
     pub skipped: Option<&'static str>,
 }
@@ -134,7 +137,7 @@ pub fn compare(start_fen: &str, moves: &[String], depth: u32, budget: u64, rep: 
     }
     // rule sensitivity of this case (reference-side flaws; never judges the engine)
     // (every third case; the two flaws that almost every case exercises on every twelfth)
-    if r.stats.nodes + r.stats.qnodes <= 25_000 && o::hash_str(start_fen) % 3 == 0 {
+    if SENSITIVITY.load(std::sync::atomic::Ordering::Relaxed) && r.stats.nodes + r.stats.qnodes <= 25_000 && o::hash_str(start_fen) % 3 == 0 {
         let sampled = o::hash_str(start_fen) % 12 == 0;
         for (flaw, name) in refsearch::FLAWS {
             let exercised = match flaw {
@@ -479,7 +482,7 @@ pub fn run(ctx: &Ctx) -> Report {
     });
     // en passant at the horizon (see ep_horizon_pos): depth 1 or 3 when the pushing side is to
     // move, depth 2 otherwise, so that the double push is the last full-width ply
-    let eph = ctx.tier.pick(6400, 96_000) / ctx.shard_count() as u32;
+    let eph = ctx.tier.pick(6400, 48_000) / ctx.shard_count() as u32;
     run_prop(ctx, "c11-ep-horizon", eph, 200, (gen::synth_strategy(), 0u8..4), &mut rep, |(ent, dsel), rep| {
         let Some((p, pusher)) = ep_horizon_pos(&mut Entropy::new(ent)) else {
             rep.class("start:rejected");
@@ -505,7 +508,7 @@ pub fn run(ctx: &Ctx) -> Report {
     // neighbouring squares of the 8th rank (its own promotion square is blocked or free), the
     // other side moves first (depth 1) or second (depth 2): it cannot save both pieces, so the
     // capturing promotion found by quiescence decides the value
-    let forks = ctx.tier.pick(2400, 32_000) / ctx.shard_count() as u32;
+    let forks = ctx.tier.pick(2400, 16_000) / ctx.shard_count() as u32;
     run_prop(ctx, "c11-promo-fork", forks, 200, (gen::synth_strategy(), 1u32..=2), &mut rep, |(ent, d), rep| {
         let mut e = Entropy::new(ent);
         let mut p = Pos::empty();
@@ -542,10 +545,30 @@ pub fn run(ctx: &Ctx) -> Report {
         }
         Ok(())
     });
+    // castling that gives check or mate inside the tree (the checking piece is the castled rook,
+    // not the piece the move is recorded for)
+    let castles = ctx.tier.pick(2400, 24_000) / ctx.shard_count() as u32;
+    run_prop(ctx, "c11-castle-check", castles, 200, (gen::synth_strategy(), 1u32..=3), &mut rep, |(ent, d), rep| {
+        let Some(p) = super::c12::castle_check_pos(&mut Entropy::new(ent)) else {
+            rep.class("start:rejected");
+            return Ok(());
+        };
+        let n = p.legal_moves().len();
+        if n > 40 {
+            return Ok(());
+        }
+        let d = if n > 22 { (*d).min(2) } else { *d };
+        rep.class("start:castling-gives-check-setup");
+        let out = compare(&p.to_fen(), &[], d, budget, rep)?;
+        if let Some(s) = out.skipped {
+            rep.class(&format!("skipped:{s}"));
+        }
+        Ok(())
+    });
     // repetition inside the tree: sparse, materially unbalanced positions reached by a short
     // to-and-fro (A m1 B m2 C m1' D): the side to move can step back into a position of the
     // game (an immediate draw), which the side that is behind wants and the other must avoid
-    let reps = ctx.tier.pick(4000, 64_000) / ctx.shard_count() as u32;
+    let reps = ctx.tier.pick(4000, 32_000) / ctx.shard_count() as u32;
     run_prop(ctx, "c11-repetition", reps, 200, (gen::synth_strategy(), 1u32..=3), &mut rep, |(ent, d), rep| {
         let mut e = Entropy::new(ent);
         let mut p = Pos::empty();
@@ -597,7 +620,7 @@ pub fn run(ctx: &Ctx) -> Report {
     });
     // the fifty-move clock runs out inside the tree on checking moves: mate nets and check
     // chains with the clock at 100-k, searched to depth k..3
-    let fifty = ctx.tier.pick(4800, 64_000) / ctx.shard_count() as u32;
+    let fifty = ctx.tier.pick(4800, 32_000) / ctx.shard_count() as u32;
     run_prop(ctx, "c11-fifty-check", fifty, 200, (gen::synth_strategy(), 1u32..=3, 0u32..=2), &mut rep, |(ent, k, extra), rep| {
         let Some(mut p) = super::c12::mate_net_pos(&mut Entropy::new(ent)) else {
             rep.class("start:rejected");
@@ -679,7 +702,7 @@ pub fn replay(ctx: &Ctx, case: &Value) -> Report {
 }
 
 pub const LEVEL: &str = "exploration";
-pub const RULE: &str = "cases = (position, game history, depth): every corpus FEN at depth 1-2 (quick) / 1-3 (thorough) plus proptest-generated cases from corpus / synthesised / pattern starts (mate nets, stalemates, fifty-move clocks 97-120, sparse endgames), half of them reached by up to 40 plies of weighted play whose history is kept (so repetitions are remembered); plus very wide nodes (6-9 queens against a king shielded in a corner with a few loose pieces, > 128 pseudo-legal moves) at depth 1-2, pawn endgames (kings, 1-3 pawns near promotion) at depth 3-4, discovered-check set-ups at depth 2-3 and 'check-chain' positions (queens and rooks on an open board with bare kings) at depth 1-2; depth 1-3 everywhere, 4 when the root has <= 14 moves, 5 when <= 8, 6 when <= 5. With caching neutralised (hook H1): engine root score == reference unpruned negamax of the engine's look-ahead game on the oracle board, root entry depth == asked depth, and the chosen move's reference value == the root value (ties allowed). Cases whose reference exceeds its node budget are skipped and counted. Non-trivial = the value is not the static evaluation of the root or the tree contained a mate score, repetition draw, fifty-move draw, check extension, stalemate or quiescence capture; distinct by (start, moves, depth).";
+pub const RULE: &str = "cases = (position, game history, depth): every corpus FEN at depth 1-2 (quick) / 1-3 (thorough) plus proptest-generated cases from corpus / synthesised / pattern starts (mate nets, stalemates, fifty-move clocks 97-120, sparse endgames), half of them reached by up to 40 plies of weighted play whose history is kept (so repetitions are remembered); plus very wide nodes (6-9 queens against a king shielded in a corner with a few loose pieces, > 128 pseudo-legal moves) at depth 1-2, pawn endgames (kings, 1-3 pawns near promotion) at depth 3-4, discovered-check set-ups at depth 2-3 and 'check-chain' positions (queens and rooks on an open board with bare kings) at depth 1-2; depth 1-3 everywhere, 4 when the root has <= 14 moves, 5 when <= 8, 6 when <= 5. Further streams aimed at single rules of the look-ahead game: en passant at the horizon (a home pawn whose double push can be captured en passant, in half of the cases also blocking a diagonal pin that the capture re-opens; depth chosen so that the push is the last full-width ply), capturing promotions at the horizon (a 7th-rank pawn forking two pieces on the 8th), the fifty-move clock at 97-99 in mate nets (it runs out inside the tree on checking moves), to-and-fro game histories in unbalanced endings (stepping back into a game position is available at the root or one ply later), and castling that gives check or mate. Every third case is also classified by *rule sensitivity*: the reference is re-run with one rule deliberately broken (quiescence ignores en passant / promotion captures, no stand-pat, no check extension, repetition or fifty-move draw ignored, fifty-move draw skipped when in check, mate not scored by distance) and the case is counted under sensitive:<rule> when the root value changes or a wrong move ties for best - these counts show how many generated cases would expose an engine that got that rule wrong; they never judge the engine. With caching neutralised (hook H1): engine root score == reference unpruned negamax of the engine's look-ahead game on the oracle board, root entry depth == asked depth, and the chosen move's reference value == the root value (ties allowed). Cases whose reference exceeds its node budget are skipped and counted. Non-trivial = the value is not the static evaluation of the root or the tree contained a mate score, repetition draw, fifty-move draw, check extension, stalemate or quiescence capture; distinct by (start, moves, depth).";
 pub const ASSUMPTIONS: &[&str] = &[
     "the independent rules oracle; the reference negamax in vf/refsearch.rs (no pruning, no ordering, quiescence memoised by position)",
     "hook H1 empties the cache before every probe; the root's own store happens after the last probe, so the root result is read from the public TRANSPOSITION_TABLE",
